@@ -24,7 +24,7 @@ RULE = (
     "a Python float or as a 0-d array. tanh: a 3-D array (shape from a menu of six) of seeded uniform values on [0,1] (or "
     "[-0.25,1.25]) with exact 0 and 1 planted plus drawn special cells (eta, the floats next to eta, eta+-1e-3, "
     "out-of-range). smoothed: a 2-D design (2..8 per axis from a menu of four shapes, singleton axis at a drawn position, drawn voxel size) of "
-    "kind smooth-wave-through-eta / random / constant / binary / constant+tiny-noise (1e-3..1e-100) / ramp. "
+    "kind smooth-wave-through-eta / random / constant / binary / dust (uniform*1e-12..1e-120, alone or beside a wave) / ramp. "
     "Non-trivial = beta in {0,inf} or eta in {0,1} or (smoothed) at least one interface cell and one interface-free "
     "cell are present. Distinct = sha1 of the case JSON."
 )
@@ -100,9 +100,10 @@ def smoothed_case(draw):
         "vaxis": draw(st.integers(0, 2)),
         "voxel_nm": draw(st.sampled_from([1.0, 20.0, 50.0, 330.0, 1000.0])),
         "voxel_other_nm": draw(st.sampled_from([20.0, 50.0, 75.0])),
-        "kind": draw(st.sampled_from(["wave", "wave", "wave", "random", "constant", "binary", "tiny-noise", "ramp"])),
+        "kind": draw(st.sampled_from(["wave", "wave", "wave", "random", "constant", "binary", "dust", "dust",
+                                 "wave+dust", "ramp"])),
         "amp": draw(st.sampled_from([0.05, 0.2, 0.45])),
-        "noise_exp": draw(st.sampled_from([3, 8, 12, 20, 40, 100])),
+        "noise_exp": draw(st.sampled_from([12, 15, 80, 100, 120])),
         "seed": draw(st.integers(0, 2**31 - 1)),
         "beta": draw(_beta()),
         "eta": draw(_eta()),
@@ -270,9 +271,16 @@ def _design(case, np_dtype):
         x = np.full((n, m), float(rng.choice([0.0, 1.0, 0.5, eta, rng.uniform(0, 1)])))
     elif kind == "binary":
         x = (rng.uniform(0, 1, (n, m)) > 0.5).astype(np.float64)
-    elif kind == "tiny-noise":
-        c0 = float(rng.choice([0.0, 0.0, eta, 0.5, 1.0]))
-        x = np.clip(c0 + 10.0 ** (-case["noise_exp"]) * rng.uniform(0, 1, (n, m)) * (1 if c0 < 1 else -1), 0, 1)
+    elif kind in ("dust", "wave+dust"):
+        # numerical dust next to zero (the tail of a filtered design): the only place where a float array can have
+        # a tiny but non-zero spatial gradient, i.e. an astronomically distant "interface" (|d|/R ~ 1e12 .. 1e120)
+        dust = 10.0 ** (-case["noise_exp"]) * rng.uniform(0, 1, (n, m))
+        if kind == "dust":
+            x = dust
+        else:
+            kx, ky = rng.uniform(0.2, 0.9, 2)
+            wave = np.clip(0.5 + 0.45 * np.sin(kx * i + rng.uniform(0, 6.3)) * np.cos(ky * j + rng.uniform(0, 6.3)), 0, 1)
+            x = np.where(i < (n + 1) // 2, dust, wave) if rng.uniform() < 0.5 else np.where(j < (m + 1) // 2, dust, wave)
     else:  # ramp through the threshold along a drawn direction
         a, b = rng.uniform(-1, 1, 2)
         r = a * (i - (n - 1) / 2) + b * (j - (m - 1) / 2)
